@@ -224,8 +224,10 @@ class Session:
         self.order_canary = []
         self.aborts = {"apply": 0, "scan": 0, "missed": 0}
         self.track_ids = plan.get("prop") == "C15"
+        self.light = plan.get("prop") == "C13"
         self.tainted = set()  # rule objects whose evaluation the plan cancels (unspecified after)
         self.io_faults = {"fired": 0, "missed": 0, "swallowed": 0}
+        self.iso_scan_snap = {}  # cfg -> snapshot digest of the reference scan (isolated pass)
         self.held = {}  # F14: list objects the caller passed to a builder call and still owns
 
     # -- argument decoding ---------------------------------------------------------
@@ -257,7 +259,10 @@ class Session:
         return a
 
     def _snap(self, ev):
-        s = snapshot(ev)
+        # C13 judges by the module list alone; asking an architecture for all its dependencies walks
+        # everything and would fill whatever the library remembers per architecture before the
+        # session's own first request reaches it
+        s = {"modules": sorted(ev.modules), "edges": []} if self.light else snapshot(ev)
         d = digest(s)
         if d not in self.snaps:
             self.snaps[d] = s
@@ -323,6 +328,13 @@ class Session:
         evs[op["ev"]] = ev
         if self.track_ids:
             ids.register(ev)
+        ref = self.iso_scan_snap.get(op["cfg"])
+        if op.get("cold") and ref is not None:
+            # the harness does not look at this architecture before the session uses it (a snapshot
+            # walks everything and would fill whatever the library remembers per architecture); what
+            # it should look like is known from the reference scan of the same request
+            self.ev_snap[_real_id(ev)] = ref
+            return {"r": "ok", "cold": True, "served": served}
         d = self._snap(ev)
         self.ev_snap[_real_id(ev)] = d
         return {"r": "ok", "snap": d, "nmod": len(self.snaps[d]["modules"]),
@@ -411,9 +423,11 @@ class Session:
             if res["r"] in ("PASS", "FAIL"):
                 self.io_faults["swallowed"] += 1
             res = {"r": "IOFAULT", "was": res["r"], "cls": res.get("cls")}
-        after = self._snap(ev)
-        res["ev_before"] = self.ev_snap[_real_id(ev)]
-        res["ev_after"] = after
+        if not op.get("nosnap"):
+            # (nosnap: the next evaluation follows without the harness looking in between)
+            after = self._snap(ev)
+            res["ev_before"] = self.ev_snap[_real_id(ev)]
+            res["ev_after"] = after
         if op["obj"] in self.tainted:
             res["tainted"] = True
         return res
@@ -550,6 +564,7 @@ class Session:
                 self.do_scan({"op": "scan", "ev": cfgid, "cfg": cfgid}, evs)
         for ev in evs.values():
             ids.release(ev)
+        self.iso_scan_snap = {c: r.get("snap") for c, r in scans.items() if r.get("r") == "ok"}
         return {"scans": scans, "outcomes": out}
 
     def run_session(self):
